@@ -4,7 +4,9 @@ use std::path::Path;
 
 pub mod optable;
 pub mod generation;
+pub mod cloner;
 pub mod instr;
+pub mod instr_codec;
 pub mod alloc;
 pub mod span;
 pub mod prec;
